@@ -23,6 +23,8 @@ pub struct Block {
     balign: usize,
     noise: bool,
     tracked: bool,
+    /// carved out of the packing arena (no red zones, never returned to the system allocator)
+    packed: bool,
 }
 
 #[derive(Clone, Copy, Debug)]
@@ -49,8 +51,12 @@ pub struct Ledger;
 static LOCK: AtomicBool = AtomicBool::new(false);
 static TRACK: AtomicBool = AtomicBool::new(false);
 static SERIAL: AtomicUsize = AtomicUsize::new(1);
-/// 0 = even addresses for align-1 blocks, 1 = odd, 2 = alternate
+/// 0 = even addresses for align-1 blocks, 1 = odd, 2 = alternate, 3 = "pack": small align-1 blocks are laid out back to back
+/// in one arena (consecutive allocations are adjacent in memory, as a bump / slab allocator would place them)
 pub static PARITY: AtomicUsize = AtomicUsize::new(0);
+const ARENA_SIZE: usize = 48 << 20;
+static mut ARENA: [u8; ARENA_SIZE] = [0; ARENA_SIZE];
+static ARENA_POS: AtomicUsize = AtomicUsize::new(0);
 static PARITY_TICK: AtomicUsize = AtomicUsize::new(0);
 pub static VIOLATIONS: AtomicUsize = AtomicUsize::new(0);
 pub static PEAK_LIVE: AtomicUsize = AtomicUsize::new(0);
@@ -61,6 +67,8 @@ pub static A1_ALLOCS: AtomicUsize = AtomicUsize::new(0);
 pub static A1_TRACKED_LIVE: AtomicUsize = AtomicUsize::new(0);
 /// bytes in those blocks
 pub static A1_TRACKED_BYTES: AtomicUsize = AtomicUsize::new(0);
+/// blocks of any other alignment (control blocks: `Shared`, `Owned<T>`) allocated during tracked calls and not yet freed
+pub static CTL_TRACKED_LIVE: AtomicUsize = AtomicUsize::new(0);
 static mut STATE: State = State {
     blocks: [None; MAX_BLOCKS],
     nblocks: 0,
@@ -101,6 +109,34 @@ unsafe impl GlobalAlloc for Ledger {
         if size > (1usize << 40) {
             return std::ptr::null_mut(); // treated as an allocation failure
         }
+        if PARITY.load(Ordering::Relaxed) == 3 && TRACK.load(Ordering::Relaxed) && align == 1 && size > 0 && size <= 8192 {
+            let pos = ARENA_POS.fetch_add(size, Ordering::Relaxed);
+            if pos + size <= ARENA_SIZE {
+                #[allow(static_mut_refs)]
+                let user = ARENA.as_mut_ptr() as usize + pos;
+                let serial = SERIAL.fetch_add(1, Ordering::Relaxed);
+                let noise = std::thread::panicking();
+                lock();
+                let s = st();
+                if s.nblocks < MAX_BLOCKS {
+                    s.blocks[s.nblocks] = Some(Block { serial, addr: user, size, align, base: user, total: size, balign: 1, noise, tracked: TRACK.load(Ordering::Relaxed) && !noise, packed: true });
+                    s.nblocks += 1;
+                } else {
+                    VIOLATIONS.fetch_add(1 << 20, Ordering::Relaxed);
+                }
+                push_event(Event { alloc: true, serial, size, align, noise, bad: 0 });
+                let live = LIVE_BYTES.fetch_add(size, Ordering::Relaxed) + size;
+                PEAK_LIVE.fetch_max(live, Ordering::Relaxed);
+                if TRACK.load(Ordering::Relaxed) && !noise {
+                    LARGEST.fetch_max(size, Ordering::Relaxed);
+                    A1_ALLOCS.fetch_add(1, Ordering::Relaxed);
+                    A1_TRACKED_LIVE.fetch_add(1, Ordering::Relaxed);
+                    A1_TRACKED_BYTES.fetch_add(size, Ordering::Relaxed);
+                }
+                unlock();
+                return user as *mut u8;
+            }
+        }
         let balign = align.max(2);
         // room for red zones and one byte of parity shift
         let lead = RZ.max(balign);
@@ -127,7 +163,7 @@ unsafe impl GlobalAlloc for Ledger {
         let s = st();
         // dense array of live blocks
         if s.nblocks < MAX_BLOCKS {
-            s.blocks[s.nblocks] = Some(Block { serial, addr: user, size, align, base: base as usize, total, balign, noise, tracked: TRACK.load(Ordering::Relaxed) && !noise && align == 1 });
+            s.blocks[s.nblocks] = Some(Block { serial, addr: user, size, align, base: base as usize, total, balign, noise, tracked: TRACK.load(Ordering::Relaxed) && !noise, packed: false });
             s.nblocks += 1;
         } else {
             VIOLATIONS.fetch_add(1 << 20, Ordering::Relaxed); // table overflow: results are not trustworthy
@@ -135,6 +171,9 @@ unsafe impl GlobalAlloc for Ledger {
         push_event(Event { alloc: true, serial, size, align, noise, bad: 0 });
         let live = LIVE_BYTES.fetch_add(size, Ordering::Relaxed) + size;
         PEAK_LIVE.fetch_max(live, Ordering::Relaxed);
+        if align != 1 && TRACK.load(Ordering::Relaxed) && !noise {
+            CTL_TRACKED_LIVE.fetch_add(1, Ordering::Relaxed);
+        }
         if align == 1 && TRACK.load(Ordering::Relaxed) && !noise {
             LARGEST.fetch_max(size, Ordering::Relaxed);
             A1_ALLOCS.fetch_add(1, Ordering::Relaxed);
@@ -174,16 +213,21 @@ unsafe impl GlobalAlloc for Ledger {
                     bad = 2;
                 }
                 // red zones
-                let basep = b.base as *const u8;
-                let lead = b.addr - b.base;
-                let front = std::slice::from_raw_parts(basep, lead);
-                let back = std::slice::from_raw_parts((b.addr + b.size) as *const u8, b.total - lead - b.size);
-                if front.iter().any(|x| *x != RZ_BYTE) || back.iter().any(|x| *x != RZ_BYTE) {
-                    bad = 3;
+                if !b.packed {
+                    let basep = b.base as *const u8;
+                    let lead = b.addr - b.base;
+                    let front = std::slice::from_raw_parts(basep, lead);
+                    let back = std::slice::from_raw_parts((b.addr + b.size) as *const u8, b.total - lead - b.size);
+                    if front.iter().any(|x| *x != RZ_BYTE) || back.iter().any(|x| *x != RZ_BYTE) {
+                        bad = 3;
+                    }
                 }
-                if b.tracked {
+                if b.tracked && b.align == 1 {
                     A1_TRACKED_LIVE.fetch_sub(1, Ordering::Relaxed);
                     A1_TRACKED_BYTES.fetch_sub(b.size, Ordering::Relaxed);
+                }
+                if b.tracked && b.align != 1 {
+                    CTL_TRACKED_LIVE.fetch_sub(1, Ordering::Relaxed);
                 }
                 s.nblocks -= 1;
                 s.blocks[i] = s.blocks[s.nblocks];
@@ -201,7 +245,9 @@ unsafe impl GlobalAlloc for Ledger {
                         push_event(Event { alloc: false, serial: o.serial, size: o.size, align: o.align, noise: false, bad: 4 });
                     }
                     unlock();
-                    System.dealloc(o.base as *mut u8, Layout::from_size_align_unchecked(o.total, o.balign));
+                    if !o.packed {
+                        System.dealloc(o.base as *mut u8, Layout::from_size_align_unchecked(o.total, o.balign));
+                    }
                 } else {
                     unlock();
                 }
@@ -244,6 +290,31 @@ pub fn find_block(addr: usize) -> Option<Block> {
     }
     unlock();
     res
+}
+
+/// Is `addr` both the end of one live block and the start of another (possible only with the packing allocator)?
+/// An empty view at such an address cannot be attributed to either block.
+pub fn on_shared_boundary(addr: usize) -> bool {
+    lock();
+    let s = st();
+    let (mut ends, mut starts) = (false, false);
+    for i in 0..s.nblocks {
+        if let Some(b) = s.blocks[i] {
+            if b.size > 0 && b.addr + b.size == addr {
+                ends = true;
+            }
+            if b.size > 0 && b.addr == addr {
+                starts = true;
+            }
+        }
+    }
+    unlock();
+    ends && starts
+}
+
+/// byte buffers + control blocks allocated during tracked calls and still alive
+pub fn tracked_live_total() -> usize {
+    A1_TRACKED_LIVE.load(Ordering::SeqCst) + CTL_TRACKED_LIVE.load(Ordering::SeqCst)
 }
 
 pub fn live_blocks_align1() -> usize {
